@@ -67,6 +67,15 @@ let run (op : string) (f : string list) : string =
   | "quote_words", ws -> ok [of_str (M.quote_words (List.map to_str ws))]
   | "quote_words_pinned", ws -> ok [of_str (M.quote_words_pinned (List.map to_str ws))]
   | "quote_value", [s] -> ok [of_str (M.quote_value (to_str s))]
+  | "unquote", [s] -> (match M.unquote_value (to_str s) with Some r -> ok [of_str r] | None -> "ERR")
+  | "unquote_pinned", [s] -> (match M.unquote_value_pinned (to_str s) with Some r -> ok [of_str r] | None -> "ERR")
+  | "split_word", [s] -> ok (List.map of_str (M.split_word_all (to_str s)))
+  | "split_word_pinned", [s] -> ok (List.map of_str (M.split_word_all_pinned (to_str s)))
+  | "split_strv", [s] -> ok (List.map of_str (M.split_strv_all (to_str s)))
+  | "split_strv_pinned", [s] -> ok (List.map of_str (M.split_strv_all_pinned (to_str s)))
+  | "port", [s] -> ok [tf (M.is_port_range (to_str s))]
+  | "port_pinned", [s] -> ok [tf (M.is_port_range_pinned (to_str s))]
+  | "trim", [s] -> ok [of_str (M.trim (to_str s))]
   (* oracle: systemd splitting of a line *)
   | "sd_split", [fl; raw] ->
       (match M.sd_split (flags_of (bare fl)) (to_str raw) with
